@@ -103,6 +103,24 @@ def strategy(draw):
     return case
 
 
+BIG = {"quick": 8, "thorough": 80}
+
+
+@st.composite
+def strategy_big(draw):
+    """Results of long deployments: 200 .. 4000 windows per azimuth (1-2 azimuths), written and read back."""
+    case = draw(strategy().filter(lambda c: c["source"] == "curves"))
+    groups = case["groups"][:2]
+    for g in groups:
+        g["nwin"] = draw(gen.big_size(200, 4000))
+    case["groups"] = groups
+    if case["kind"] == "azimuthal":
+        case["azimuths"] = case["azimuths"][:len(groups)]
+    case["ops"] = case["ops"][:3]
+    case["big"] = True
+    return case
+
+
 def warmup():
     from . import c02
     c02.warmup()
@@ -168,7 +186,7 @@ def check_case(case):
     import hvsrpy as hv
     obj = _build(hv, case)
     kind = case["kind"]
-    labels = [kind, case["source"]]
+    labels = [kind, case["source"]] + (["big-%d00s-of-windows" % (max(g["nwin"] for g in case["groups"]) // 100)] if case.get("big") else [])
     members = _members(hv, obj)
     shared_kw = {}
     last_range = (None, None)
